@@ -27,6 +27,9 @@ CHECKS = {
  "C03": dict(engine="pure", technique="TLA+ reference semantics (IgnoreScope.tla) with scoping laws checked by TLC; enumerated cases replayed on real trees through IgnoreFilter / IgnoreFilterer",
    text="IgnoreScope.tla defines git-style evaluation over a tree with prefix-related sibling directories (test/tests, origin/originx): nearest directory first, last matching line wins, path before parents, then globals; TLC checks Scoping, NegationLocal and OrderIrrelevant on it and enumerates ignore-file sets (all single files, all pairs of one-line files, seeded samples of 2-3 files) with the expected verdict of 20 probes each; the real filter is built five ways (new, new again, new with a permuted list, new+add_file, empty+add_file) and must give the expected verdict through check_event and check_dir every time.",
    ref="6 C03", note="Trusted: TLC; the glob semantics of the reference cover the 14 patterns of the table. Skipped as unspecified: a directory vs an ignore file inside it, re-inclusion below an excluded parent, anchored global patterns seen from outside the origin."),
+ "C12": dict(engine="pure", technique="TLA+ decision spec (CliIgnoreFlags.tla) enumerated by TLC; all 448 cases replayed through the CLI's argv parser and WatchexecFilterer",
+   text="CliIgnoreFlags.tla gives each of the six flags its documented meaning (the set of ignore sources it removes; shorthands expanded by a Normalise step), TLC checks RemovesExactly / Monotone / ShorthandMeaning and enumerates all 64 flag sets x 7 explicit options with the expected verdict of nine probe events; every case is run as a real command line (argv -> Args::parse -> normalise -> WatchexecFilterer::new -> check_event) against a project with a .gitignore, a .ignore, a global git ignore, a global watchexec ignore and a file hit by the built-in defaults. Complete enumeration in both tiers.",
+   ref="6 C12", note="Trusted: TLC; the help text of each flag is the reference. HOME/XDG_CONFIG_HOME are faked once per process; argv goes through the cfg(watchexec_verif) verif module of the CLI library."),
  "C20": dict(engine="pure", technique="TLA+ decision spec (Origins.tla) checked and enumerated by TLC; every case replayed on real directory trees",
    text="Origins.tla holds the documented marker table, the declarative IsOrigin/TypesOf and the VCS/software-suite partition; TLC checks that the ancestor walk equals the declarative definition and that every reported type lies in exactly one category, and enumerates every marker with the right and the wrong node type plus all chains up to the bound; each enumerated case is materialised as a real directory chain and origins()/types()/is_vcs()/is_soft() must answer as the spec does.",
    ref="6 C20", note="Trusted: TLC; the marker table and classification in Origins.tla (transcribed from the crate documentation) are the reference. Ancestors above the scratch root are outside the universe."),
